@@ -11,10 +11,18 @@
    the usage; ActionImport is all-or-message: for EVERY byte string it yields either the
    complete decoded completion or exactly one message and no values; input that is not one
    valid JSON text yields the message.
-   Not yet proved (checked by correspondence on every run, byte-exact): print -> parse at
-   byte level (string escaping / unescaping of arbitrary valid Unicode text).
+   Proved at byte level (Proofs/Utf8.v, JsonString.v, JsonRoundtrip.v, ExportBytes.v):
+     C13_decode_encode        utf8.DecodeRune then string(rune) gives back a well formed sequence
+     C13_string_roundtrip     the string reader applied to what the encoder prints for ANY byte
+                              string yields that string with invalid UTF-8 replaced by U+FFFD
+     C13_valid_text_unchanged ... i.e. the string itself when it is valid UTF-8
+     C13_parse_print          parse (print j) = j (strings sanitised) for every tree of strings,
+                              arrays and objects
+     C13_export_bytes         importing the BYTES `export` prints for (meta, values) yields the
+                              normalised completion with every text as the encoder leaves it
    ActionExecute / child-process transport: the same bytes travel; exercised by the harness. *)
-From CV Require Import Base.Str Model.Common Model.JsonParse Model.Action Model.Export Proofs.Export.
+From CV Require Import Base.Str Base.Utf8 Base.Json Base.SortPerm Model.Common Model.Shells Model.JsonParse Model.Action Model.Export Proofs.Export
+  Proofs.Utf8 Proofs.JsonString Proofs.JsonRoundtrip Proofs.ExportBytes.
 
 Theorem C13_roundtrip_tree : forall ver m vs,
   of_json (to_json ver m vs) = Some (mkExport ver (norm_meta m) (Some (norm_values vs))).
@@ -51,3 +59,28 @@ Example C13_example :
   import doc1 = IOk (mkExport [] meta0 (Some [mkRaw (B [97;10;195;169]) (B [100]) [] [] [] [] []])) /\
   import (take 30 doc1) = IMsg.
 Proof. split; vm_compute; reflexivity. Qed.
+
+Theorem C13_decode_encode : forall s r bs rest, decode1 s = Some (r, bs, rest) -> 2 <= length bs -> encode_rune r = bs.
+Proof. exact decode_encode. Qed.
+Print Assumptions C13_decode_encode.
+
+Theorem C13_string_roundtrip : forall s fuel tail, length (chunks s) < fuel ->
+  pstring fuel (flat_map json_chunk (chunks s) ++ dq :: tail) [] = Some (sanitize s, tail).
+Proof. exact pstring_json_string. Qed.
+Print Assumptions C13_string_roundtrip.
+
+Theorem C13_valid_text_unchanged : forall s, all_valid s -> sanitize s = s.
+Proof. exact sanitize_valid. Qed.
+Print Assumptions C13_valid_text_unchanged.
+
+Theorem C13_parse_print : forall j, strs_only j -> jparse (jprint j) = Some (jsan j).
+Proof. exact jparse_jprint. Qed.
+Print Assumptions C13_parse_print.
+
+Theorem C13_export_bytes : forall e m vs,
+  import (export_format e m vs) =
+    IOk (mkExport (sanitize (version e))
+                  (mkMeta (msgs_merge [] (map sanitize (messages m))) (sanitize (nospace m)) (sanitize (usage m)))
+                  (Some (map (fun r => strip (san_raw r)) (isort_by value_ltb' vs)))).
+Proof. exact import_export_bytes. Qed.
+Print Assumptions C13_export_bytes.
